@@ -353,6 +353,30 @@ theorem pop_sweep {g : Graph V} (wf : WF g) (mix : M → V → V → V) {i : Nat
     unfold upd
     by_cases hki : k = i <;> simp [hki]
 
+/-! ### the documented precondition of a per-individual revert, structurally -/
+
+/-- With values as functions of the individual index (`IVal R = Nat → R`; population-level values are the constant
+    ones) and the entry-wise selection `mixI`: a variable that depends on the assigned one only through variables
+    computed individual by individual (`RowwiseFrom`) commutes with the mix.  Aggregating variables (sums over
+    individuals) are exactly what `Rowwise` excludes — they are what the documented contract forbids to read. -/
+theorem commutes_of_rowwise {R : Type} {g : Graph (IVal R)} (wf : WF g) {i : Nat} (hi : i < g.n) {b : Bool}
+    (hki : g.kind i = .indep b) (m : Nat → Bool) {k : Nat} (hrow : RowwiseFrom g i k) (hk : k < g.n) :
+    Commutes g mixI m i k :=
+  State.commutes_of_rowwise wf hi hki m hrow hk
+
+/-- **Partial rejection, with the precondition in its documented (structural) form**: between the proposal and the
+    per-individual revert only variables computed individual by individual were cached. -/
+theorem rejected_partial_rowwise {R : Type} {g : Graph (IVal R)} (wf : WF g) {s0 : St (IVal R)} (h0 : Inv g s0)
+    (hm : s0.mode = true) {i : Nat} (hi : i < g.n) (hk : g.kind i = .indep true) (v : Option (IVal R))
+    (js : List Nat) (hjs : ∀ j ∈ js, j < g.n) (m : Nat → Bool)
+    (hpre : ∀ k ∈ g.desc i, ∀ o c, s0.vals k = some o →
+      (gets g (State.set g s0 i v).1 js).vals k = some c → RowwiseFrom g i k) :
+    let s3 := (revert mixI (gets g (State.set g s0 i v).1 js) (some m)).1
+    Inv g s3 ∧ absS g s3 = upd (absS g s0) i (mixOpt mixI m (s0.vals i) v) ∧ s3.fork = none ∧
+    ∀ k, k < g.n → ReadOK g (upd (absS g s0) i (mixOpt mixI m (s0.vals i) v)) k (State.get g s3 k).2 :=
+  rejected_partial wf mixI h0 hm hi hk v js hjs m
+    (fun k hk' o c ho hc => State.commutes_of_rowwise wf hi hk m (hpre k hk' o c ho hc) (wf.desc_lt i k hk'))
+
 /-! ### non-vacuity of `Commutes` -/
 
 
